@@ -314,12 +314,22 @@ def startNext (s : S) : S :=
   if s.k.state ≠ .yielded ∨ s.k.runq ≠ [] ∨ s.k.timerq ≠ [] then { s with mpc := .recv .pass1 }
   else { s with mpc := .fast }
 
+/-- the plain code at the entry of a main-context call -/
+def startCall (s : S) : MCall → S
+  | .next t => startNext (tok .passBegin (emit .passBegin { s with k := { s.k with now := t }, drainFrom := s.aq.received }))
+  | .run f => { s with mpc := .recv (.run f), drainFrom := s.aq.received }
+  | .kill f => { s with mpc := .recv (.kill f), drainFrom := s.aq.received }
+
+/-- `PT_INIT(&kernel.current->priv)` -/
+def resetPriv (s : S) : S :=
+  match s.k.current with
+  | some c => { s with k := { s.k with priv := upd s.k.priv c 0 } }
+  | none => s
+
 /-- the plain code of the main context up to its next atomic operation (or to the return of the call) -/
 def mainPlain (s : S) : S :=
   match s.mpc with
-  | .start (.next t) => startNext (tok .passBegin (emit .passBegin { s with k := { s.k with now := t }, drainFrom := s.aq.received }))
-  | .start (.run f) => { s with mpc := .recv (.run f), drainFrom := s.aq.received }
-  | .start (.kill f) => { s with mpc := .recv (.kill f), drainFrom := s.aq.received }
+  | .start c => startCall s c
   | .fastDone e => if e then dispatch s else { s with mpc := .recv .pass1 }
   | .recvd c =>
     match s.aq.recv with
@@ -327,10 +337,7 @@ def mainPlain (s : S) : S :=
       { s with aq := mqStep s.aq (.recv false), k := makeRunnable s.k (s.aq.payload sl.toNat), mpc := .rel c }
     | _ => afterDrain s c
   | .reld c => { s with mpc := .recv c }
-  | .taintFd =>          -- PT_INIT(&kernel.current->priv)
-    match s.k.current with
-    | some c => afterUpdate { s with k := { s.k with priv := upd s.k.priv c 0 } }
-    | none => afterUpdate s
+  | .taintFd => afterUpdate (resetPriv s)
   | .hRecvd =>
     match s.eq.recv with
     | .hold sl _ =>      -- process(e): read the stamp
